@@ -12,6 +12,10 @@ import sys
 import glob
 
 REPO = os.environ.get("ZV_REPO", "/repo")
+try:
+    DEFAULTS = json.load(open(os.path.join(os.path.dirname(os.path.abspath(__file__)), "defaults.json")))
+except Exception:
+    DEFAULTS = {}
 POISON = 999983
 
 
@@ -56,7 +60,9 @@ class Gen:
 
     def put(self, name, val, how):
         if val is None:
-            self.vals[name] = POISON
+            # pattern not found: the committed last-known value keeps the model runnable; the name is
+            # reported as missing and every property for which it is relevant treats its tie as broken
+            self.vals[name] = DEFAULTS.get(name, POISON)
             self.info[name] = "missing"
         else:
             self.vals[name] = val
